@@ -1,0 +1,77 @@
+//go:build verif
+
+// Contracts for package ctlog, checked by /verif's govc (comment-only file: no declarations).
+package ctlog
+
+//@ ghost field ctlog.Log.gseq LeafSeq
+
+//@ func ctlog.signTreeHead props C01 C11
+//@   defines ret1 == nil ==> isSignedFor(ret0, c, tree)
+
+//@ pure func stagingKey(t tlog.Tree) string
+//@ func ctlog.stagingPath props C03 C04
+//@   ensures [C03,C04] prefix: hasPrefix(ret, "staging/")
+//@   defines ret == stagingKey(tree)
+
+//@ func ctlog.compress props C03
+//@   defines ret1 == nil ==> ret0 == gzipOf(data)
+
+//@ func ctlog.(*Log).edgeTilesHashReader props C01 C08
+//@   defines readerSeq(ret) == l.gseq
+
+//@ func ctlog.hashTreeHead props C01
+//@   ensures [C01] fields: ret1 == nil ==> ret0.N == n && ret0.Time == t
+//@   ensures [C01] root: (ret1 == nil && typeof(r) == typeid("*torchwood.HashReaderOverlay") && n == slenQ(cast(r, "*torchwood.HashReaderOverlay").gseq)) ==> ret0.Hash == mth(cast(r, "*torchwood.HashReaderOverlay").gseq)
+//@   ensures [C01] empty: (ret1 == nil && n == 0) ==> ret0.Hash == mth(emptySeq())
+
+//@ func ctlog.applyStagedUploads props C03 C04
+//@   modifies gApplied, gAppliedOK
+//@   defines ret == nil ==> gAppliedOK == old(gAppliedOK) + 1 && gApplied == stagedUploads
+//@   defines ret != nil ==> gAppliedOK == old(gAppliedOK) && gApplied == old(gApplied)
+//@ ghost var gApplied bytes
+//@ ghost var gAppliedOK int
+
+//@ func ctlog.marshalStagedUploads props C03
+//@   defines ret1 == nil ==> ret0 == tarOf(uploads)
+//@ pure func tarOf(uploads Slice) bytes
+
+//@ func ctlog.(*Log).cachePut props C02 C07
+//@   modifies gCachePuts
+//@   defines gCachePuts == old(gCachePuts) + 1
+//@ ghost var gCachePuts int
+
+//@ func ctlog.(*Log).sequencePool props C01 C02 C03 C04 C06 C08 C17
+//@   requires l != nil && p != nil && l.c != nil
+//@   requires slenQ(l.gseq) == l.tree.N && mth(l.gseq) == l.tree.Hash
+//@   requires !closed(p.done)
+//@   init gReplaceOK == 0 && gReplaceTried == 0 && gAppliedOK == 0 && gCachePuts == 0 && gFetches == 0
+//@   init gUp == emptyset("set[string]") && gUpTried == emptyset("set[string]") && gDiscarded == emptyset("set[string]")
+//@   invariant "range p.pendingLeaves" count: n == old(l.tree.N) + rangeindex + 1
+//@   invariant "range p.pendingLeaves" overlay: hashReader != nil && isPrefix(old(l.gseq), hashReader.gseq) && slenQ(hashReader.gseq) == n
+//@   invariant "range p.pendingLeaves" no-ops: gReplaceTried == 0 && gUpTried == emptyset("set[string]") && gDiscarded == emptyset("set[string]") && gAppliedOK == 0 && gCachePuts == 0
+//@   invariant "range tiles" no-ops2: gReplaceTried == 0 && gUpTried == emptyset("set[string]") && gDiscarded == emptyset("set[string]") && gAppliedOK == 0 && gCachePuts == 0
+//@   call ctlog.LockBackend.Replace requires [C01,C06] cas-old: c_old == old(l.lockCheckpoint) && l.lockCheckpoint == old(l.lockCheckpoint)
+//@   call ctlog.LockBackend.Replace requires [C01] time: timestamp > old(l.tree.Time) && tree.Time == timestamp
+//@   call ctlog.LockBackend.Replace requires [C01,C08] extends: tree.N == slenQ(hashReader.gseq) && tree.Hash == mth(hashReader.gseq) && isPrefix(old(l.gseq), hashReader.gseq)
+//@   call ctlog.LockBackend.Replace requires [C01,C07] size: tree.N == old(l.tree.N) + len(p.pendingLeaves)
+//@   call ctlog.LockBackend.Replace requires [C01,C11] signed: c_new == checkpoint && isSignedFor(checkpoint, l.c, tree)
+//@   call ctlog.LockBackend.Replace requires [C01] once: gReplaceTried == 0
+//@   call ctlog.LockBackend.Replace requires [C03] staged-first: len(tileUploads) > 0 ==> gUp[stagingPath] && gUpData[stagingPath] == gzipOf(stagedUploads) && gUpImm[stagingPath]
+//@   call ctlog.LockBackend.Replace requires [C03] nothing-else-yet: gAppliedOK == 0 && !gUpTried["checkpoint"] && gCachePuts == 0
+//@   call ctlog.LockBackend.Replace requires [C01,C03] state-untouched: l.tree == old(l.tree) && l.edgeTiles == old(l.edgeTiles)
+//@   call ctlog.Backend.Upload "stagingPath" requires [C03] bundle: c_data == gzipOf(stagedUploads) && c_key == stagingPath && gReplaceTried == 0
+//@   call ctlog.applyStagedUploads requires [C03,C04] after-commit: gReplaceOK == 1 && gLastNew == checkpoint && c_stagedUploads == stagedUploads
+//@   call ctlog.Backend.Upload "checkpoint" requires [C01,C02,C04] committed-first: gReplaceOK == 1 && gLastNew == c_data && c_data == checkpoint
+//@   call ctlog.Backend.Upload "checkpoint" requires [C03,C04] tiles-first: gAppliedOK == 1 && gApplied == stagedUploads
+//@   call ctlog.Backend.Discard requires [C03,C04] after-publish: gUp["checkpoint"] && gUpData["checkpoint"] == checkpoint && c_key == stagingPath
+//@   call ctlog.(*Log).cachePut requires [C02,C07] after-publish: gUp["checkpoint"] && gUpData["checkpoint"] == checkpoint && c_entries == sequencedLeaves
+//@   ensures [C02,C17] waiters-released: closed(p.done)
+//@   ensures [C02] ack-implies-published: p.err == nil ==> gUp["checkpoint"] && gUpData["checkpoint"] == gLastNew && gReplaceOK == 1 && gAppliedOK == 1
+//@   ensures [C02] result-set: p.err == nil ==> p.firstLeafIndex == old(l.tree.N) && p.timestamp > old(l.tree.Time)
+//@   ensures [C06] cas-failure-fatal: gReplaceTried == 1 && gReplaceOK == 0 ==> err != nil && Is(err, errFatal) && p.err != nil
+//@   ensures [C06] cas-failure-stops: gReplaceOK == 0 ==> !gUpTried["checkpoint"] && gAppliedOK == 0 && gCachePuts == 0 && l.tree == old(l.tree) && l.lockCheckpoint == old(l.lockCheckpoint) && l.edgeTiles == old(l.edgeTiles)
+//@   ensures [C03,C06] tile-failure-fatal: gReplaceOK == 1 && gAppliedOK == 0 ==> err != nil && Is(err, errFatal)
+//@   ensures [C01] at-most-one-cas: gReplaceTried <= 1
+//@   ensures [C01] state-advances-with-cas: gReplaceOK == 1 ==> l.tree.N == old(l.tree.N) + len(p.pendingLeaves) && l.tree.Time > old(l.tree.Time) && lockedBytes(l.lockCheckpoint) == gLastNew
+//@   ensures [C08] no-fetch: gFetches == 0
+//@   ensures [C06] nonfatal-keeps-running: err != nil ==> Is(err, errFatal)
